@@ -148,7 +148,7 @@ def _apply_localfn(fn, args, kwargs, env):
 def children(e):
     """Yield direct sub-expressions."""
     k = e[0]
-    if k in ('const', 'name', 'opaque', 'sig', 'idx', 'acc', 'carry', 'final', 'undef', 'bv', 'enum', 'localfn'):
+    if k in ('const', 'name', 'opaque', 'sig', 'obj', 'idx', 'acc', 'carry', 'final', 'undef', 'bv', 'enum', 'localfn'):
         return
     if k == 'item':
         return
@@ -224,7 +224,7 @@ def subst(e, fn):
 
     def r(x):
         return subst(x, fn)
-    if k in ('const', 'name', 'opaque', 'sig', 'idx', 'item', 'acc', 'carry', 'final', 'undef', 'bv', 'enum', 'localfn'):
+    if k in ('const', 'name', 'opaque', 'sig', 'obj', 'idx', 'item', 'acc', 'carry', 'final', 'undef', 'bv', 'enum', 'localfn'):
         out = e
     elif k == 'attr':
         out = ('attr', r(e[1]), e[2])
@@ -656,6 +656,8 @@ def show(e):
         return show(e[1])
     if k == 'sig':
         return f"${e[2]}#{e[1]}"
+    if k == 'obj':
+        return f"@{e[2]}#{e[1]}"
     if k == 'idx':
         return f"idx<{e[1]}>"
     if k == 'item':
